@@ -48,9 +48,10 @@ class PinvRegistry(object):
         return (x, None, a.shape[0], None)
 
     def split(self, poly):
-        """poly -> ({(tag, a): [g_0 .. g_{n-1}]}, rest) where poly = rest + sum_m W[tag,a,m] * g_m.
+        """poly -> ({(tag, 'row'|'col', a): [g_0 .. g_{n-1}]}, rest)
+        row group:  sum_m W[tag][a, m] * g_m      col group:  sum_m W[tag][m, a] * g_m
         Raises if a term is not linear in the W atoms."""
-        groups, rest = {}, Poly.const(0)
+        per_tag, rest = {}, Poly.const(0)
         for mono, c in poly.t.items():
             ws = [(s, e) for s, e in mono if s[0] == 'W' and '_' in s and s.split('_')[0] in self.mats]
             if not ws:
@@ -59,41 +60,69 @@ class PinvRegistry(object):
             if len(ws) != 1 or ws[0][1] != 1:
                 raise AnalysisError('term not linear in the rule weights: %r' % (Poly({mono: c}),))
             tag, a, b = ws[0][0].split('_')
-            a, b = int(a), int(b)
+            g = Poly({tuple(x for x in mono if x[0] != ws[0][0]): c})
+            per_tag.setdefault(tag, []).append((int(a), int(b), g))
+        groups = {}
+        for tag, items in per_tag.items():
             n = self.mats[tag].shape[0]
-            g = groups.setdefault((tag, a), [Poly.const(0)] * n)
-            g[b] = g[b] + Poly({tuple(x for x in mono if x[0] != ws[0][0]): c})
+            rows = {a for a, b, g in items}
+            cols = {b for a, b, g in items}
+            if len(rows) == 1:
+                a = rows.pop()
+                vec = [Poly.const(0)] * n
+                for _, b, g in items:
+                    vec[b] = vec[b] + g
+                groups[(tag, 'row', a)] = vec
+            elif len(cols) == 1:
+                b = cols.pop()
+                vec = [Poly.const(0)] * n
+                for a, _, g in items:
+                    vec[a] = vec[a] + g
+                groups[(tag, 'col', b)] = vec
+            else:
+                # several rows: one group per row
+                for a in rows:
+                    vec = [Poly.const(0)] * n
+                    for a2, b, g in items:
+                        if a2 == a:
+                            vec[b] = vec[b] + g
+                    groups[(tag, 'row', a)] = vec
         return groups, rest
 
     def resolve(self, poly):
-        """Apply W*M = I.  Returns (resolved Poly without W atoms, unresolved Poly that keeps W atoms,
-        notes) -- a group that is proportional to column j of M becomes lambda * delta(a, j)."""
+        """Apply W*M = I (row groups) and M*W = I (column groups).  Returns (resolved Poly without W atoms,
+        unresolved Poly that keeps its W atoms, notes)."""
         groups, rest = self.split(poly)
         unresolved = Poly.const(0)
         notes = []
-        for (tag, a), g in groups.items():
+        for (tag, kind, a), g in groups.items():
             M = self.mats[tag]
             n = M.shape[0]
             hit = None
             for j in range(n):
-                col = [_as_poly(M[m, j]) for m in range(n)]
-                if any(c.is_zero() for c in col):
+                vec = [_as_poly(M[m, j]) for m in range(n)] if kind == 'row' else [_as_poly(M[j, m]) for m in range(n)]
+                piv = next((m for m in range(n) if not vec[m].is_zero()), None)
+                if piv is None:
                     continue
                 ok = True
                 for m in range(n):
-                    if not (g[m] * col[0] - g[0] * col[m]).is_zero():
+                    if not (g[m] * vec[piv] - g[piv] * vec[m]).is_zero():
                         ok = False
                         break
-                if ok:
-                    hit = j
+                if ok and not all(x.is_zero() for x in g):
+                    hit = (j, piv, vec)
                     break
             if hit is None:
-                unresolved = unresolved + sum((Poly.sym('%s_%d_%d' % (tag, a, m)) * g[m] for m in range(n)),
-                                             Poly.const(0))
+                if all(x.is_zero() for x in g):
+                    continue
+                for m in range(n):
+                    nm = '%s_%d_%d' % ((tag, a, m) if kind == 'row' else (tag, m, a))
+                    unresolved = unresolved + Poly.sym(nm) * g[m]
                 continue
-            lam = g[0] / _as_poly(M[0, hit])
-            notes.append((tag, a, hit))
-            if hit == a:
+            j, piv, vec = hit
+            lam = g[piv] / vec[piv]
+            notes.append((tag, kind, a, j))
+            if j == a:
                 rest = rest + lam
         return rest, unresolved, notes
 
